@@ -955,6 +955,8 @@ class Interp:
         if isinstance(f, ast.Attribute) and isinstance(recv, Const):
             if recv.v is None:
                 return [(Exc("AttributeError", e), st)]
+            if type(recv.v) in (str, bytes, list, tuple, dict, int, bool, set, frozenset, float) and not hasattr(recv.v, f.attr):
+                return [(Exc("AttributeError", e), st)]  # e.g. a list where the code expects a string
             if isinstance(recv.v, (str, bytes)) and f.attr in PURE_STR and all(isinstance(a, Const) for a in args) and not kw:
                 try:
                     return [(Const(getattr(recv.v, f.attr)(*[a.v for a in args])), st)]
